@@ -288,8 +288,44 @@ pub fn run_case(rt: &tokio::runtime::Runtime, case: &Case, seed: u64) -> Vec<Fai
     }
 }
 
+/// The known-finding classes taken over from C27, re-confirmed through FileWriter / FileReader in every run
+/// (a class whose fixed case round-trips is reported: it was repaired and its predicate must go).
+fn fixed_cases(rt: &tokio::runtime::Runtime, sink: &mut Sink) {
+    use crate::probe::{gen_stack, roundtrip_col, L};
+    use arrow_array::builder::{Int32Builder, ListBuilder};
+    let two_pages = || FileWriterOptions { data_cache_bytes: Some(0), ..Default::default() };
+    let mut b = ListBuilder::new(ListBuilder::new(Int32Builder::new()));
+    b.values().append(true);
+    b.values().append(false);
+    b.append(true);
+    b.append(false);
+    b.append(true);
+    let complex_all_null: ArrayRef = Arc::new(b.finish());
+    let cases: Vec<(&str, &str, Vec<ArrayRef>, FileWriterOptions)> = vec![
+        ("complex_all_null_page_rows_as_levels", "List<List<Int32>> [[[],null],null,[]], one page", vec![complex_all_null], Default::default()),
+        ("composite_allvalid_item_outside_list", "Struct?{List<Int32>}: nulls in page 1, none in page 2", vec![gen_stack(&[L::S(true), L::Li(false, false)], false, 8, 0), gen_stack(&[L::S(false), L::Li(false, false)], false, 8, 1)], two_pages()),
+        ("composite_rep_only_truncate", "List<List<Int32>> without null / empty lists, two pages", vec![gen_stack(&[L::Li(false, false), L::Li(false, false)], false, 8, 0), gen_stack(&[L::Li(false, false), L::Li(false, false)], false, 8, 1)], two_pages()),
+    ];
+    for (class, what, cols, opts) in cases {
+        for version in [LanceFileVersion::V2_1, LanceFileVersion::V2_2] {
+            let r = roundtrip_col(rt, cols.clone(), version, vec![], FileWriterOptions { ..opts.clone() });
+            sink.count(&format!("e2e:fixed:{class}"));
+            match r {
+                Err(e) => sink.oracle_fail(Some(class), &format!("e2e fixed case: {what} does not read back: {}", e.chars().take(200).collect::<String>()), json!({"fixed_case": what, "version": version.to_string()})),
+                Ok(()) => {
+                    sink.oracle_ok();
+                    sink.notes.push(format!("fixed case of class {class} ({what}, {version}) round-trips now"));
+                }
+            }
+        }
+    }
+}
+
 pub fn run(args: &Args, sink: &mut Sink, rng: &mut Rng) {
     let rt = runtime();
+    if !args.rest.iter().any(|a| a == "--case") {
+        fixed_cases(&rt, sink);
+    }
     let n = args.vol(90, 1500);
     let only: Option<usize> = args.rest.iter().position(|a| a == "--case").and_then(|p| args.rest.get(p + 1)).and_then(|v| v.parse().ok());
     for i in 0..n {
